@@ -98,6 +98,9 @@ func Fib(n int) int {
 func Sq(n int) int { return n*n + int(Y) }
 
 //go:noinline
+func Inc(n int) int { return n + 100 } // LEAQ; RET: the RET lies inside the copied prefix
+
+//go:noinline
 func Cube(n int) int { return n*n*n - int(Y) }
 
 //go:noinline
@@ -389,6 +392,40 @@ func remock1(f func(int) int, arg int, stack, sameBuilder bool) kase {
 		}}
 }
 
+// rebind1: the SAME origin placeholder variable is bound twice — mock with Origin(&origin), then mock the same function again with
+// Origin(&origin) (no Reset in between): the placeholder body already holds the relocated prologue when goom measures and rewrites it
+// the second time; it has to run the real function afterwards as well (seed C11-R6-2)
+func rebind1(f func(int) int, arg int, stack bool) kase {
+	return kase{fns: []interface{}{f}, hasStackCheck: stack, plain: func() string { return fmt.Sprint(f(arg)) },
+		install: func(cnt *int32) (func() string, interface{}, func()) {
+			m := goom.Create()
+			origin := func(n int) int { // a call-free body (a loop): only room for the relocated instructions
+				s := 0
+				for i := 0; i < n; i++ {
+					s += i * n
+					if s%7 == 3 {
+						s -= n
+					}
+				}
+				return s + 1
+			}
+			m.Func(f).Origin(&origin).Apply(func(n int) int { return origin(n) - 777 })
+			if f(arg) != origin(arg)-777 {
+				panic("first mock with origin not active")
+			}
+			m.Func(f).Origin(&origin).Apply(func(n int) int { return origin(n) - 778 }) // a third binding, then Reset and a fourth
+			if f(arg) != origin(arg)-778 {
+				panic("second mock with origin not active")
+			}
+			m.Reset()
+			m.Func(f).Origin(&origin).Apply(func(n int) int {
+				atomic.AddInt32(cnt, 1)
+				return origin(n)
+			})
+			return func() string { return fmt.Sprint(f(arg)) }, f, func() { m.Reset() }
+		}}
+}
+
 var zoo = map[string]kase{
 	"S1": mk0(S1, false), "SetX": mk0(SetX, false), "CmpX": mk0(CmpX, false), "S2": mk0(S2, true), "S3": mk0(S3, true),
 	"Leaf": mk0(Leaf, false), "Load": mk0(Load, false), "Big": mk0(Big, true), "Printer": mk0(Printer, true), "G": mk0(G, false),
@@ -396,6 +433,7 @@ var zoo = map[string]kase{
 	"TwinLeafG": multi0(false, Leaf, G), "TripleLeafGLoad": multi0(false, Leaf, G, Load), "TwinS2S3": multi0(true, S2, S3),
 	"TwinSqCube": multi1(false, 9, Sq, Cube), "TwinDblSq": multi1(true, 7, Dbl, Sq),
 	"RemockSq": remock1(Sq, 9, false, false), "RemockDbl": remock1(Dbl, 7, true, false), "RemockSameBuilderCube": remock1(Cube, 5, false, true),
+	"RebindSq": rebind1(Sq, 9, false), "RebindDbl": rebind1(Dbl, 7, true), "RebindInc": rebind1(Inc, 5, false),
 	"Big2": mk0(Big2, true),
 	"LoopHead": mk1(Walk, 0x5a5a5, false), "LoopCount": mk1(SumTo, 37, false),
 	"Mul4": {fns: []interface{}{Mul4}, plain: func() string { return fmt.Sprint(Mul4(3, 5, 7, 11)) },
